@@ -47,7 +47,7 @@ def normal_form(h, declared):
     for e in h.delivers:
         opts = (e.get('inputs') or {}).get('options') or {}
         name = e['nid'] if e['nid'] in declared else '~'
-        msgs[(e['pid'], e['type'], name, e['key'], e['uses'], e['state'], e['tag'], json.dumps(opts.get('$index')), json.dumps(opts.get('$value')),
+        msgs[(e['pid'], e['type'], name, ('~' if name == '~' and e['key'] == e['nid'] else e['key']), e['uses'], e['state'], e['tag'], json.dumps(opts.get('$index')), json.dumps(opts.get('$value')),
               json.dumps(clean(e.get('inputs')), sort_keys=True), json.dumps(clean(e.get('outputs')), sort_keys=True))] += 1
     cbs = collections.Counter((e['pid'], e['what'], e['state'], json.dumps(clean(e.get('outputs')), sort_keys=True)) for e in h.cbs)
     fin = collections.Counter((k[0], t['nid'] if t['nid'] in declared else '~', t['kind'], t['state']) for k, t in h.final_tasks().items())
@@ -70,6 +70,8 @@ class RestartFamily:
         sc['responder']['order'] = 'fifo'
         sc['engine'] = {'store': store, 'keep_processes': True}
         sc['ops'] = [o if o.get('op') != 'run' else {'op': 'run', 'snap': 'none'} for o in sc['ops']]
+        if base == 'flow' and rng.random() < 0.3:
+            sc['models'] = [json.dumps(flow.strip_ids(json.loads(sc['models'][0]), rng))]
         sc['family'] = 'restart'
         sc['sched'] = f'{base}-{store}-A'
         if store == 'sqlite':
